@@ -208,6 +208,30 @@ def run_case(case):
                      lambda: "%s maxdiff=%s" % (name, dom.maxdiff(F2, F_ref)))
             except aa.exc.InversionException:
                 results[name] = None
+    # ---- a second dataset that shares the convolver / grids / w-tilde tables of the first but holds DIFFERENT data (the
+    # DatasetInterface route used when an image has something subtracted before it is inverted): D must follow the new data
+    if not all_func:
+        fx3, objs3 = _build(case)
+        ds3 = fx3["ds"]
+        first = aa.Inversion(dataset=ds3, linear_obj_list=objs3, settings=fix_inv.settings(aa, True, diag=diag))
+        _ = np.array(first.data_vector), np.array(first.curvature_matrix)  # first use fills whatever is cached on the shared tables
+        d2 = 0.5 - 1.7 * fx3["data"][::-1]
+        data2 = aa.Array2D(values=d2.copy(), mask=fx3["mask"])
+        D2_ref = fix_inv.normal_equations(B, d2, fx3["noise"])[0]
+        for wt in (True, False):
+            dsi = aa.DatasetInterface(data=data2, noise_map=ds3.noise_map, grids=ds3.grids, convolver=ds3.convolver, w_tilde=ds3.w_tilde)
+            _, objs4 = _build(case)
+            try:
+                inv4 = aa.Inversion(dataset=dsi, linear_obj_list=objs4, settings=fix_inv.settings(aa, wt, diag=diag))
+                D4 = np.array(inv4.data_vector, dtype=float)
+                F4 = np.array(inv4.curvature_matrix, dtype=float)
+                fam = "wtilde" if isinstance(inv4, aa.InversionImagingWTilde) else "mapping"
+                v.ok(D4.shape == D2_ref.shape and np.allclose(D4, D2_ref, rtol=1e-9, atol=1e-9 * max(1.0, np.abs(D2_ref).max())),
+                     "%s:data_vector:shared-tables-new-data" % fam, lambda: "second dataset sharing w_tilde/convolver: maxdiff=%s" % dom.maxdiff(D4, D2_ref))
+                v.ok(F4.shape == F_ref.shape and np.allclose(F4, F_ref, rtol=1e-9, atol=1e-9 * scaleF), "%s:curvature_matrix:shared-tables-new-data" % fam,
+                     lambda: "maxdiff=%s" % dom.maxdiff(F4, F_ref))
+            except Exception as e:
+                v.fail("dataset-interface:exception%s" % tagsfx, "wt=%s %r" % (wt, e))
     # formalism agreement on the solution
     base = results.get("mapping/factory")
     for name, r in results.items():
